@@ -11,7 +11,7 @@ def rhex(rnd, n):
 
 def mutation(rnd, dtls):
     """returns (name, [lines with {X} {T}])"""
-    kind = rnd.choice(["flip", "flip", "flips", "lenfield", "hslen", "trunc", "garbage", "injectrec", "injectrec", "forge", "forge", "hsedit", "combo", "dupswap", "bigrec"]
+    kind = rnd.choice(["flip", "flip", "flips", "lenfield", "hslen", "trunc", "garbage", "injectrec", "injectrec", "forge", "forge", "hsedit", "combo", "dupswap", "bigrec", "cut"]
                       + (["fraghdr", "fraghdr", "fraglie", "fraglie", "fraglie"] if dtls else []))
     hl = 13 if dtls else 5
     if kind == "fraglie":
@@ -22,6 +22,12 @@ def mutation(rnd, dtls):
     if kind == "fraghdr":
         # DTLS handshake header of one of the queued fragments: length (3), message_seq (2), fragment_offset (3), fragment_length (3)
         return "fraghdr", ["mod {X} %d %d %s" % (rnd.randrange(0, 5), hl + 1 + rnd.randrange(11), hex(rnd.choice([1, 2, 4, 0x10, 0x80, 0xff]))) for _ in range(rnd.choice([1, 1, 2]))]
+    if kind == "cut":
+        # the sender writes application data (lengths that give every padding length), then whole 16- or 8-byte blocks are
+        # cut out of the record so that its tail follows an earlier block: short records with well-formed endings
+        d = rnd.choice([0, 1, 3, 11, 12, 13, 14, 15, 16, 27, 28, 29, 30, 31, 32, 40, 60, 100])
+        blk = rnd.choice([16, 16, 16, 8])
+        return "cut", ["send {X} %d" % d, "flush {X}", "cut {X} -1 %d %d fix=1" % (hl + blk * rnd.choice([0, 0, 1, 2]), blk * rnd.choice([1, 1, 2, 3, 4]))]
     if kind == "flip":
         return "flip", ["mod {X} 0 %d %s" % (rnd.choice([0, 1, 2, 3, 4, hl, hl + 1, hl + 2, hl + 3, hl + 4, hl + 5, rnd.randrange(0, 400), -1, -2, -16, -17]), hex(rnd.choice([1, 2, 0x80, 0xff, 0x40])))]
     if kind == "flips":
@@ -60,7 +66,7 @@ CONTS = [["pump c0 s0 max=8"], ["send {T} 7", "send {X} 9", "pump c0 s0 max=8", 
 def episodes(tier, seed):
     rnd = random.Random(seed * 2654435761 % (2 ** 31))
     E = []
-    n = {"quick": 3200, "thorough": 48000}[tier]
+    n = {"quick": 9600, "thorough": 96000}[tier]
     C = sessgen.cfgs()
     # DTLS configurations again with a small path MTU, so that handshake messages travel as fragments
     for c in list(C):
